@@ -133,6 +133,17 @@ CHECKS = {
          "(C20_exceptions). Completeness is refuted at host (C20_host_witness: 's://1.2.3.4x' is RFC-derivable and rejected; known finding F9) and otherwise explored by the differential oracle."),
    note=GENERAL_NOTE + " Partial: completeness (RFC-derivable => accepted) is not proved; it is false at host = sor< IP_literal, IPv4address, reg_name > (KNOWN-FINDING F9) and explored elsewhere against two independent ABNF recognisers. The RFC transcription spec/rfc3986.abnf is trusted.",
    technique="Lean 4 soundness proof over a translated node table (sync obligation each run); differential run of the real parser against the model, the PEG evaluator and two independent ABNF recognisers; F9 classifier with control input"),
+ 'C13': dict(engine='matcher-model', design_ref='DESIGN.md §6 C13',
+   text=("Proof (Lean 4): state objects are modelled as what they are — locals of a match() frame — for the state< S, R > rule and the change_state / change_states / change_action_and_state / change_action_and_states bases. "
+         "For every grammar, attachment, input, mode and fuel the trace is accepted by the state-scope automaton (C13_scopes): every object constructed inside an invocation is destroyed inside it, LIFO, also on local failure and when an "
+         "exception passes; success is called at most once, only on the innermost live object, with the next outer object as outer state; every action call is given the innermost live object; nothing inside an invocation touches "
+         "the objects alive at its entry (C13_deeper). Exact life cycles: state<> calls success iff the rule matched, in every apply mode, at the cursor after the match (C13_state_rule, counted over the whole trace in "
+         "C13_state_rule_once); the action-based variants call it iff the rule matched and actions are enabled, and the rule's own action sees the new object (C13_change_state, C13_change_action_and_state, "
+         "C13_own_action_sees_new_state). change_action / enable_action / disable_action replace family / mode for exactly the attempt of their rule (C13_change_action, C13_disable_action, C13_enable_action, C13_seq_env)."),
+   note=GENERAL_NOTE + " Partial: 'affects exactly the sub-tree and nothing after it' for action/apply-mode switches is by construction in the model (the environment is a parameter passed downwards) and checked on the implementation by the "
+        "switch-scope trace oracle (family and apply mode recomputed per invocation from the chain of enclosing invocations), not stated as a trace-automaton theorem. change_control and the control<> rule are not in the Lean model (one control per run): "
+        "they are covered by an oracle-only part with a second, event-marking control family. The two spellings change_state / change_states are one constructor in the model (same behaviour); success() of the state types does not throw.",
+   technique="Lean 4 proof that every model trace is accepted by a state-scope stack automaton (environment-indexed trace induction) + exact life-cycle theorems; differential correspondence with state rules and all switching bases; three independent trace oracles; oracle-only change_control part"),
 }
 
 PENDING = {
